@@ -67,7 +67,8 @@ def run(ctx, report):
     guarded = get_is_guarded(ctx)
     roots = eff.runtime_roots()
     runtime_all = eff.reachable(roots)
-    lazy_ok = guarded and all((isinstance(n.args[0], ast.Constant) and n.args[0].value in loaded) for f, n in sites
+    from ..intrinsics import const_str
+    lazy_ok = guarded and all(const_str(prog, f.module, n.args[0]) in loaded for f, n in sites
                                if id(f) in runtime_all and f.qualname not in IMPORT_ONLY and n.args)
 
     skip = slow_path_skip(ctx, eff, lazy_ok)
